@@ -443,8 +443,15 @@ def rule_snode_tests(mod, rep):
                 rep.check(ok, "SNODE-TEST", "%s#T2" % f.name, "the structure test accepts only no_lsub == size(j-1) - 1",
                           "the structure test does not single out no_lsub == size(j-1) - 1 (values at size-2, size-1, size: %s): a column whose row set is a strict subset joins the "
                           "supernode" % [T2(-2), T2(-1), T2(0)], C.loc, f.name)
-        if na == 0 or nb == 0:
+        if na == 0 and nb == 0:
             rep.brk("ANALYSIS-BROKEN SNODE-TEST: tests not found in %s (size %d, structure %d)" % (f.name, na, nb))
+        elif na == 0:
+            rep.fail("SNODE-TEST", "%s#maxsuper" % f.name, "p?gstrf_column_dfs compares no column offset jcol - fsupc with sp_ienv(3): nothing stops a supernode of L at maxsuper columns "
+                     "(super_bnd[] counts from the start of a piece of H, not of the supernode: a relaxed supernode plus the piece that follows can exceed it), and the update kernels' "
+                     "scratch layout TriTmp[maxsuper] | MatvecTmp overlaps for wider supernodes", f.file, f.name)
+        elif nb == 0:
+            rep.fail("SNODE-TEST", "%s#T2" % f.name, "p?gstrf_column_dfs has no test of no_lsub against the row count of the previous column: a column joins the supernode whatever "
+                     "its structure", f.file, f.name)
 
 
 # ---------------------------------------------------------------------------------------------------------------------------------
